@@ -74,13 +74,16 @@ class H5:
         return self.attrs.get("/Info/Parameters", {})
 
 
-def run_inovesa(variant, opts, cwd, xdg, timeout=180, env=None, extra_args=(), config=None, inherit_sigint_ignored=False):
+def run_inovesa(variant, opts, cwd, xdg, timeout=180, env=None, extra_args=(), config=None, inherit_sigint_ignored=False, stack_kib=None):
     """Run the program; opts dict of long options. -c /dev/null unless config given.
+    stack_kib: soft limit of the main thread's stack (ulimit -s) the program is started with.
     inherit_sigint_ignored: start it the way a non-interactive shell starts a background job (SIGINT disposition 'ignore' inherited)."""
     exe = os.path.join(build.build(variant), "inovesa")
     argv = [exe, "--config", config if config else "/dev/null"] + to_args(opts) + list(extra_args)
     if inherit_sigint_ignored:
         argv = ["/bin/sh", "-c", "trap '' INT; exec \"$0\" \"$@\""] + argv
+    if stack_kib:
+        argv = ["/bin/sh", "-c", "ulimit -S -s %d; exec \"$0\" \"$@\"" % stack_kib] + argv
     e = dict(core.SAN_ENV)
     e["XDG_DATA_HOME"] = xdg
     e["HOME"] = cwd
